@@ -271,7 +271,12 @@ impl UpdatePage {
 
             let mut arr = [0u8; UPDATE_ENTRY_SIZE];
             arr.copy_from_slice(entry_slice);
-            entries.push(UpdateEntry::from_bytes(&arr));
+            // The guard is checked against the bytes as they were read. An
+            // entry that does not match it was torn or damaged: it is left
+            // out instead of being served as a location.
+            if UpdateEntry::compute_hash_guard(&arr) == hash_guard {
+                entries.push(UpdateEntry::from_bytes(&arr));
+            }
             offset += UPDATE_ENTRY_SIZE;
         }
 
